@@ -30,7 +30,8 @@ def _reach(lib, root, fns):
 
 
 def _is_arr(ty, dim1=None, mutview=False):
-    t = ty.lstrip('&').replace('mut ', '', 1).strip()
+    import re
+    t = re.sub(r"^&\s*('\w+\s+)?", '', ty).replace('mut ', '', 1).strip()
     if not t.startswith('ndarray::ArrayBase<'):
         return False
     if mutview and 'ViewRepr<&mut ' not in ty and "ViewRepr<&'" not in ty:
@@ -63,6 +64,39 @@ def solver_param_roles(lib, ps):
         else:
             return None
     if roles.count('k') != 1 or roles.count('rhs') != 1 or ncoef != 3:
+        return None
+    return roles
+
+
+def entry_param_roles(lib, ps):
+    """the parameters of the per-system assembly / the per-lane dispatcher, in any order: the slopes (a mutable view: 'k'), the axis
+    (a 1-D array, 'x', or a private struct that holds it in one field: ('holder', field)), the data ('data') and the boundary
+    (a local enum, or an array of one: 'boundary'); None if `ps` is not that"""
+    import re
+    adts = {a['path']: a for a in lib.f.get('adts', [])}
+    roles = []
+    for ty in ps:
+        t = strip_generics(ty.lstrip('&').replace('mut ', '', 1).strip())
+        m = re.search(r'ViewRepr<&(\w+)<', ty)
+        if 'ViewRepr<&mut ' in ty.replace("&'a mut", '&mut'):
+            roles.append('k')
+        elif t.startswith('ndarray::ArrayBase') and m and m.group(1) in adts:
+            roles.append('boundary')
+        elif _is_arr(ty, dim1=True):
+            roles.append('x')
+        elif t.startswith('ndarray::ArrayBase'):
+            roles.append('data')
+        elif t in adts and adts[t].get('kind') == 'Enum':
+            roles.append('boundary')
+        elif t in adts and adts[t].get('kind') == 'Struct' and adts[t].get('variants'):
+            fs = [f_['name'] for f_ in adts[t]['variants'][0]['fields'] if _is_arr(f_['ty'], dim1=True)]
+            if len(fs) != 1 or len(adts[t]['variants'][0]['fields']) != 1:
+                return None
+            roles.append(('holder', fs[0], t, adts[t]['variants'][0]['name']))
+        else:
+            return None
+    flat = ['x' if isinstance(r, tuple) else r for r in roles]
+    if sorted(flat) != ['boundary', 'data', 'k', 'x']:
         return None
     return roles
 
